@@ -38,6 +38,7 @@ type LifeOpts struct {
 	Terminate bool
 	Renew     bool
 	Pending   bool  // offer stores relayed by the owner's own account (order stays pending) + Ready; needs SidOwner
+	Unnamed   bool  // offer stores with an empty alias (unnamed models)
 	Regenesis bool  // offer "export the six custom modules and re-initialise them from the export" as an environment move
 	SidOwner  bool  // the owner is a did:sid identity bound to account T (only such accounts can submit their own requests)
 	Sponsor   bool  // offer sponsored stores (payer P)
@@ -116,6 +117,15 @@ func lifeRoots(o LifeOpts) []engine.Root {
 						sh, _ := w.App.OrderKeeper.GetShard(ctx, 0)
 						return Tx("migrate", "migrate(setup)", &saotypes.MsgMigrate{Creator: sh.Sp, Provider: sh.Sp, Data: []string{world.Data1}})
 					},
+					CompleteNth(2, 0),
+				}
+			}
+		case "R7": // two models of different paid length held by the same providers: D1 for 7200 blocks, D2 for 3600
+			extra = func(w *world.World) []engine.SetupStep {
+				return []engine.SetupStep{
+					fixed(Tx("store", "store(11,7200,setup)", StoreMsg(w, StoreP{Signer: world.O, Relayer: world.G, Gateway: world.G, DataId: world.Data1, CommitId: world.Data1, Size: size, Replica: 1, Duration: 7200, Timeout: 100}))),
+					CompleteNth(1, 0),
+					fixed(Tx("store", "store(22,3600,setup)", StoreMsg(w, StoreP{Signer: world.O, Relayer: world.G, Gateway: world.G, DataId: world.Data2, CommitId: world.Data2, Size: size, Replica: 1, Duration: 3600, Timeout: 100}))),
 					CompleteNth(2, 0),
 				}
 			}
@@ -200,6 +210,9 @@ func lifeOps0(w *world.World, ctx sdk.Context, o LifeOpts) []engine.Op {
 							out = append(out, Tx("store-sponsored", "store-sponsored("+args+")", StoreMsg(w, StoreP{Signer: world.O, Relayer: world.P, Gateway: world.G, DataId: d, CommitId: d, Size: sz, Replica: rep, Duration: dur, Timeout: to, PayDid: w.A(world.P).Did})))
 						} else if !exists {
 							out = append(out, Tx("store", "store("+args+")", StoreMsg(w, StoreP{Signer: world.O, Relayer: world.G, Gateway: world.G, DataId: d, CommitId: d, Size: sz, Replica: rep, Duration: dur, Timeout: to})))
+							if o.Unnamed {
+								out = append(out, Tx("store-unnamed", "store-unnamed("+args+")", StoreMsg(w, StoreP{Signer: world.O, Relayer: world.G, Gateway: world.G, DataId: d, CommitId: d, Size: sz, Replica: rep, Duration: dur, Timeout: to, NoAlias: true})))
+							}
 							if o.Pending {
 								out = append(out, Tx("store-pending", "store-pending("+args+")", StoreMsg(w, StoreP{Signer: world.O, Relayer: world.T, Gateway: world.G, DataId: d, CommitId: d, Size: sz, Replica: rep, Duration: dur, Timeout: to})))
 							}
@@ -209,7 +222,7 @@ func lifeOps0(w *world.World, ctx sdk.Context, o LifeOpts) []engine.Op {
 						} else {
 							if o.Update {
 								cid := meta.Commit + "|" + commitName(nextOrder)
-								out = append(out, Tx("update", "update("+args+")", StoreMsg(w, StoreP{Signer: world.O, Relayer: world.G, Gateway: world.G, DataId: d, CommitId: cid, Size: sz, Replica: rep, Duration: dur, Timeout: to, Cid: world.Cid2})))
+								out = append(out, Tx("update", "update("+args+")", StoreMsg(w, StoreP{Signer: world.O, Relayer: world.G, Gateway: world.G, DataId: d, CommitId: cid, Size: sz, Replica: rep, Duration: dur, Timeout: to, Cid: world.Cid2, Alias: meta.Alias, NoAlias: meta.Alias == ""})))
 								if o.Pending {
 									out = append(out, Tx("update-pending", "update-pending("+args+")", StoreMsg(w, StoreP{Signer: world.O, Relayer: world.T, Gateway: world.G, DataId: d, CommitId: cid, Size: sz, Replica: rep, Duration: dur, Timeout: to, Cid: world.Cid2})))
 								}
@@ -226,7 +239,7 @@ func lifeOps0(w *world.World, ctx sdk.Context, o LifeOpts) []engine.Op {
 							}
 							if o.ForcePush {
 								cid := meta.Commit + "|" + commitName(nextOrder)
-								out = append(out, Tx("forcepush", "forcepush("+args+")", StoreMsg(w, StoreP{Signer: world.O, Relayer: world.G, Gateway: world.G, DataId: d, CommitId: cid, Size: sz, Replica: rep, Duration: dur, Timeout: to, Operation: 2, Cid: world.Cid2})))
+								out = append(out, Tx("forcepush", "forcepush("+args+")", StoreMsg(w, StoreP{Signer: world.O, Relayer: world.G, Gateway: world.G, DataId: d, CommitId: cid, Size: sz, Replica: rep, Duration: dur, Timeout: to, Operation: 2, Cid: world.Cid2, Alias: meta.Alias, NoAlias: meta.Alias == ""})))
 							}
 						}
 					}
@@ -254,6 +267,11 @@ func lifeOps0(w *world.World, ctx sdk.Context, o LifeOpts) []engine.Op {
 		}
 		if len(all) > 1 {
 			out = append(out, Tx("renew", fmt.Sprintf("renew(all,%d)", o.RenewDur[0]), RenewMsg(w, world.O, world.G, world.G, o.RenewDur[0], 100, all...)))
+			var rev []string
+			for i := len(all) - 1; i >= 0; i-- {
+				rev = append(rev, all[i])
+			}
+			out = append(out, Tx("renew", fmt.Sprintf("renew(all-reversed,%d)", o.RenewDur[0]), RenewMsg(w, world.O, world.G, world.G, o.RenewDur[0], 100, rev...)))
 		}
 	}
 	holders := map[string]bool{}
